@@ -381,8 +381,9 @@ def explore_products(res, backend, mats, tier, family):
                                 res.count('lhs0_pairs_compared')
                                 if v:
                                     res.violation(v[0], '[{}] A={} {}: {}'.format(backend, Alist, _brief(c1), v[1]), {'part': 'lin', 'mode': 'lhs0pair', 'backend': backend, 'A': Alist, 'cases': [c1, c2]})
-        if len(res.samples) < 2 and n > 1:
-            res.sample({'part': 'lin', 'backend': backend, 'A': Alist, 'requests': len(done)})
+        if len(res.samples) < 2 and n > 1 and answers:
+            c, x = answers[-1]
+            res.sample({'part': 'lin', 'backend': backend, 'A': Alist, 'requests_on_this_matrix': len(done), 'last_request': c, 'answer': numpy.asarray(x).tolist()})
 
 
 def _brief(c):
